@@ -417,9 +417,11 @@ deriving DecidableEq, Repr
     number is expected (Python builds it happily: `(a == None) == (b == None)`,
     `(a == None) + (b == None) >= 1`); SQL reads it as 1 / 0 / NULL. -/
 inductive E : Srt → Type where
-  | col (c : Nat) : E .num
+  | col (c : Nat) : E .num                     -- `Cls.q.<IntCol>`
+  | rcol (c : Nat) : E .num                    -- `Cls.q.<FloatCol>`
   | const (i : Int) : E .num
   | fconst (neg : Bool) (i : Nat) : E .num     -- a float constant: sign, literal number of its magnitude
+  | wconst (neg : Bool) (i n : Nat) : E .num   -- a float constant whose magnitude is the whole number `n`
   | ar (o : ArOp) (l r : E .num) : E .num      -- `l + r`, `l - r`, `l * r`, `l / r`, `l % r`
   | neg (x : E .num) : E .num                  -- `-x`
   | pos (x : E .num) : E .num                  -- `+x`
@@ -490,6 +492,9 @@ def all3 (xs : List (Option Bool)) : Option Bool :=
 def any3 (xs : List (Option Bool)) : Option Bool :=
   if some true ∈ xs then some true else if none ∈ xs then none else some false
 
+/-- the value of a (signed) float constant -/
+def litVal (D : Dom) (neg : Bool) (i : Nat) : D.V := if neg then D.neg (D.flt i) else D.flt i
+
 /-- values of the three sorts -/
 @[reducible] def Val (D : Dom) : Srt → Type
   | .num => Option D.V
@@ -499,8 +504,10 @@ def any3 (xs : List (Option Bool)) : Option Bool :=
 /-- the value of a source tree on a row; a boolean used as a number is 1 / 0 / NULL -/
 def eval (D : Dom) (r : Row D) : {s : Srt} → E s → Val D s
   | _, .col c => r c
+  | _, .rcol c => r c
   | _, .const i => some (D.ofInt i)
-  | _, .fconst neg i => some (if neg then D.neg (D.flt i) else D.flt i)
+  | _, .fconst neg i => some (litVal D neg i)
+  | _, .wconst neg i _ => some (litVal D neg i)
   | _, .ar o l x => lift2 (D.ar o) (eval D r l) (eval D r x)
   | _, .neg x => (eval D r x : Option D.V).map D.neg
   | _, .pos x => eval D r x
@@ -537,10 +544,12 @@ def embed (D : Dom) : (s : Srt) → Val D s → Sem D.V
 def isConst : NumE → Bool
   | .const _ => true
   | .fconst _ _ => true
+  | .wconst _ _ _ => true
   | _ => false
 
 def isCol : NumE → Bool
   | .col _ => true
+  | .rcol _ => true
   | _ => false
 
 /-- `self.<method>(other)` for a method whose body is `SQLOp(op, self, other)` / `SQLOp(op, other, self)` -/
@@ -597,8 +606,10 @@ def noneRule (rule : NoneRule) (ov : OvBin) (a : Node) : Node :=
     outside the fragment).  A boolean expression used as a number is the same object. -/
 def build : {s : Srt} → E s → Node
   | _, .col c => .field c
+  | _, .rcol c => .field c
   | _, .const i => .int i
   | _, .fconst neg i => .flt neg i
+  | _, .wconst neg i _ => .flt neg i
   | _, .ar o l r =>
     if o = .mod then .modulo (build l) (build r)
     else if isConst l && !isConst r then applyOv (arRov o) (build r) (build l)
@@ -633,6 +644,81 @@ def build : {s : Srt} → E s → Node
 
 abbrev buildN (e : NumE) : Node := build e
 abbrev buildB (e : BoolE) : Node := build e
+
+/-! ### what the constructors do to a constant before building: `IntCol == <float>` -/
+
+def wholeVal (neg : Bool) (n : Nat) : Int := if neg then -(n : Int) else n
+
+/-- `Cls.q.<IntCol> == x` / `!= x` (also written `x == Cls.q.<IntCol>`: Python reflects it) pass a
+    plain constant through the column's `from_python` (`IntValidator`): a float that is a whole number
+    becomes that int, a float with a fractional part is refused (`Invalid`, `none` here); every other
+    comparison and every other left operand leaves the constant alone. -/
+def coerceCmp (o : CmpOp) (l r : NumE) : Option BoolE :=
+  if o = .eq ∨ o = .ne then
+    match l, r with
+    | .col c, .wconst neg _ n => some (.cmp o (.col c) (.const (wholeVal neg n)))
+    | .col _, .fconst _ _ => none
+    | .wconst neg _ n, .col c => some (.cmp o (.const (wholeVal neg n)) (.col c))
+    | .fconst _ _, .col _ => none
+    | _, _ => some (.cmp o l r)
+  else some (.cmp o l r)
+
+/-- the tree after the constructors' constant normalisation; `none`: construction raises `Invalid` -/
+def coerce : {s : Srt} → E s → Option (E s)
+  | _, .col c => some (.col c)
+  | _, .rcol c => some (.rcol c)
+  | _, .const i => some (.const i)
+  | _, .fconst neg i => some (.fconst neg i)
+  | _, .wconst neg i n => some (.wconst neg i n)
+  | _, .ar o l r => do let l' ← coerce l; let r' ← coerce r; pure (.ar o l' r')
+  | _, .neg x => do let x' ← coerce x; pure (.neg x')
+  | _, .pos x => do let x' ← coerce x; pure (.pos x')
+  | _, .b2i b => do let b' ← coerce b; pure (.b2i b')
+  | _, .cmp o l r => do let l' ← coerce l; let r' ← coerce r; coerceCmp o l' r'
+  | _, .andOp l r => do let l' ← coerce l; let r' ← coerce r; pure (.andOp l' r')
+  | _, .orOp l r => do let l' ← coerce l; let r' ← coerce r; pure (.orOp l' r')
+  | _, .andFn l r => do let l' ← coerce l; let r' ← coerce r; pure (.andFn l' r')
+  | _, .orFn l r => do let l' ← coerce l; let r' ← coerce r; pure (.orFn l' r')
+  | _, .notOp x => do let x' ← coerce x; pure (.notOp x')
+  | _, .notFn x => do let x' ← coerce x; pure (.notFn x')
+  | _, .isin x l => do let x' ← coerce x; let l' ← coerce l; pure (.isin x' l')
+  | _, .notin x l => do let x' ← coerce x; let l' ← coerce l; pure (.notin x' l')
+  | _, .isnull x => do let x' ← coerce x; pure (.isnull x')
+  | _, .isnotnull x => do let x' ← coerce x; pure (.isnotnull x')
+  | _, .eqNone x => do let x' ← coerce x; pure (.eqNone x')
+  | _, .neNone x => do let x' ← coerce x; pure (.neNone x')
+  | _, .inil => some .inil
+  | _, .inull t => do let t' ← coerce t; pure (.inull t')
+  | _, .icons h t => do let h' ← coerce h; let t' ← coerce t; pure (.icons h' t')
+
+/-- in comparisons the float literal and the whole number it stands for are interchangeable -/
+def Agrees (D : Dom) (neg : Bool) (i n : Nat) : Prop :=
+  ∀ o x, D.cmp o x (litVal D neg i) = D.cmp o x (D.ofInt (wholeVal neg n)) ∧
+         D.cmp o (litVal D neg i) x = D.cmp o (D.ofInt (wholeVal neg n)) x
+
+/-- every whole-number float constant of the tree really is that whole number in the domain -/
+def WholeOk (D : Dom) : {s : Srt} → E s → Prop
+  | _, .wconst neg i n => Agrees D neg i n
+  | _, .ar _ l r => WholeOk D l ∧ WholeOk D r
+  | _, .neg x => WholeOk D x
+  | _, .pos x => WholeOk D x
+  | _, .b2i b => WholeOk D b
+  | _, .cmp _ l r => WholeOk D l ∧ WholeOk D r
+  | _, .andOp l r => WholeOk D l ∧ WholeOk D r
+  | _, .orOp l r => WholeOk D l ∧ WholeOk D r
+  | _, .andFn l r => WholeOk D l ∧ WholeOk D r
+  | _, .orFn l r => WholeOk D l ∧ WholeOk D r
+  | _, .notOp x => WholeOk D x
+  | _, .notFn x => WholeOk D x
+  | _, .isin x l => WholeOk D x ∧ WholeOk D l
+  | _, .notin x l => WholeOk D x ∧ WholeOk D l
+  | _, .isnull x => WholeOk D x
+  | _, .isnotnull x => WholeOk D x
+  | _, .eqNone x => WholeOk D x
+  | _, .neNone x => WholeOk D x
+  | _, .inull t => WholeOk D t
+  | _, .icons h t => WholeOk D h ∧ WholeOk D t
+  | _, _ => True
 
 /-- the filter `Cls.select(e)` sends, read back by the reference parser with binding powers `P`,
     selects row `r` -/
